@@ -388,7 +388,7 @@ def structure_program(e):
         src += "d1.Setting = %s.%s.Maximum\n" % (pl, lt)
         src += "%s.%s = 1\n" % (pl, lt)
         src += "d3.Setting = %s.Average.%s + %s.Sum.%s\n" % (pl, lt, pl, lt)
-        src += 'd4.Setting = %s["nm"].Minimum.%s + %s["nm"].%s.Maximum\n' % (pl, lt, pl, lt)
+        src += 'd4.Setting = %s["nm"].Average.%s + %s["nm"].%s.Maximum\n' % (pl, lt, pl, lt)
         src += '%s["nm"].%s = 2\n' % (pl, lt)
     for s in e["named"]:
         src += "d2.Setting = xs.%s.Occupied\n" % s["name"]
